@@ -243,7 +243,10 @@ func (w *world) execRender(op M) bool {
 			derr("htmlopts on %s wrapper", wr.kind)
 		}
 		ht.Id, ht.Class, ht.Caption = opStr(op, "id"), opStr(op, "class"), opStr(op, "caption")
-		if opIntDef(op, "gen", 0) == 1 {
+		if opIntDef(op, "gen", 0) == 0 {
+			wr.gen = nil
+			ht.SetRowClassGenerator(nil, nil)
+		} else {
 			g := &genRec{}
 			for _, v := range opList(op, "genvals") {
 				g.vals = append(g.vals, v.(string))
